@@ -369,6 +369,7 @@ func checkGenericErrorDiscipline(c *Ctx, pkgs ...string) {
 	checkReceivedErrorsSurface(c, "errors-surface.received-errors", pkgs...)
 	checkPresenceTests(c, "errors-surface.presence-tests", pkgs...)
 	checkAccumulatorsFed(c, "plumbing.accumulators-fed", pkgs...)
+	checkCopyIntoRangeCopy(c, "plumbing.copy-into-range-copy", pkgs...)
 	if n1 == 0 || n2 == 0 {
 		c.fail("errors-surface.error-branch-fails", "instances", "-", "the generic error rules matched no site in "+joinStrings(pkgs))
 	}
